@@ -37,7 +37,13 @@ import (
 	"github.com/tikv/client-go/v2/config"
 	"github.com/tikv/client-go/v2/config/retry"
 	tikverr "github.com/tikv/client-go/v2/error"
+	"github.com/pingcap/kvproto/pkg/keyspacepb"
+	"github.com/tikv/client-go/v2/internal/apicodec"
 	"github.com/tikv/client-go/v2/internal/mockstore/mocktikv"
+	pd "github.com/tikv/pd/client"
+	pdgc "github.com/tikv/pd/client/clients/gc"
+	"github.com/tikv/pd/client/constants"
+	"github.com/tikv/pd/client/pkg/caller"
 	"github.com/tikv/client-go/v2/kv"
 	"github.com/tikv/client-go/v2/oracle"
 	"github.com/tikv/client-go/v2/tikv"
@@ -128,6 +134,7 @@ type history struct {
 	ts1    uint64
 	ts2    uint64
 	rnd    *rand.Rand
+	keyspace bool // run under an API v2 keyspace store
 }
 
 var alphabet = [][]byte{
@@ -304,6 +311,7 @@ type hijack struct {
 }
 
 type env struct {
+	prefix  []byte // keyspace prefix of an API v2 history
 	h       *history
 	mvcc    mocktikv.MVCCStore
 	cluster *mocktikv.Cluster
@@ -341,15 +349,15 @@ func (e *env) applyTopo1(ev topoEvent) {
 		e.cluster.Merge(regs[i].Meta.Id, regs[i+1].Meta.Id)
 		return
 	}
-	reg, _, _, _ := e.cluster.GetRegionByKey(mocktikv.NewMvccKey(ev.key))
+	reg, _, _, _ := e.cluster.GetRegionByKey(mocktikv.NewMvccKey(e.phys(ev.key)))
 	if reg == nil {
 		return
 	}
-	if bytes.Equal(mocktikv.MvccKey(reg.StartKey).Raw(), ev.key) {
+	if bytes.Equal(mocktikv.MvccKey(reg.StartKey).Raw(), e.phys(ev.key)) {
 		return // already a boundary
 	}
 	nr, np := e.cluster.AllocID(), e.cluster.AllocID()
-	e.cluster.Split(reg.Id, nr, ev.key, []uint64{np}, np)
+	e.cluster.Split(reg.Id, nr, e.phys(ev.key), []uint64{np}, np)
 }
 
 // SendRequestAsync (the EnableAsyncBatchGet path of snapshot_async.go): the same hooks, then the
@@ -457,9 +465,9 @@ func (hj *hijack) pre(req *tikvrpc.Request) (*tikvrpc.Response, error) {
 		for _, t := range e.h.txns {
 			if t.kind == kLiveFinish && t.start == r.LockTs && n == t.finishAt {
 				if t.finishComm {
-					_ = e.mvcc.Commit(t.keys, t.start, t.commit)
+					_ = e.mvcc.Commit(e.physAll(t.keys), t.start, t.commit)
 				} else {
-					_ = e.mvcc.Rollback(t.keys, t.start)
+					_ = e.mvcc.Rollback(e.physAll(t.keys), t.start)
 				}
 			}
 		}
@@ -485,15 +493,16 @@ func (e *env) bufferBatchGet(req *tikvrpc.Request) (*tikvrpc.Response, error) {
 	dbg := e.mvcc.(mocktikv.MVCCDebugger)
 	resp := &kvrpcpb.BufferBatchGetResponse{}
 	for _, k := range r.Keys {
+		k := e.phys(k)
 		if bytes.Compare(k, start) < 0 || (len(end) > 0 && bytes.Compare(k, end) >= 0) {
 			return regionErr(&errorpb.Error{KeyNotInRegion: &errorpb.KeyNotInRegion{Key: k, RegionId: reg.Id, StartKey: reg.StartKey, EndKey: reg.EndKey}})
 		}
 		if l := dbg.MvccGetByKey(k).Lock; l != nil && l.StartTs == r.Version {
 			switch l.Type {
 			case kvrpcpb.Op_Put:
-				resp.Pairs = append(resp.Pairs, &kvrpcpb.KvPair{Key: k, Value: l.ShortValue})
+				resp.Pairs = append(resp.Pairs, &kvrpcpb.KvPair{Key: k[len(e.prefix):], Value: l.ShortValue})
 			case kvrpcpb.Op_Del:
-				resp.Pairs = append(resp.Pairs, &kvrpcpb.KvPair{Key: k})
+				resp.Pairs = append(resp.Pairs, &kvrpcpb.KvPair{Key: k[len(e.prefix):]})
 			}
 		}
 	}
@@ -531,7 +540,7 @@ func (hj *hijack) send(ctx context.Context, addr string, req *tikvrpc.Request, t
 	if req.Type == tikvrpc.CmdScan && hj.tracing {
 		var rstart, rend []byte
 		if reg, _ := e.cluster.GetRegion(req.Context.GetRegionId()); reg != nil {
-			rstart, rend = mocktikv.MvccKey(reg.StartKey).Raw(), mocktikv.MvccKey(reg.EndKey).Raw()
+			rstart, rend = e.logical(mocktikv.MvccKey(reg.StartKey).Raw(), false), e.logical(mocktikv.MvccKey(reg.EndKey).Raw(), true)
 		}
 		sr := req.Scan()
 		hj.mu.Lock()
@@ -576,15 +585,73 @@ func (hj *hijack) send(ctx context.Context, addr string, req *tikvrpc.Request, t
 	return resp, err
 }
 
+// the mock PD has no keyspaces: answer LoadKeyspace for the API v2 histories
+type ksPD struct {
+	pd.Client
+	meta *keyspacepb.KeyspaceMeta
+}
+
+func (p ksPD) GetGCStatesClient(keyspaceID uint32) pdgc.GCStatesClient {
+	return p.Client.GetGCStatesClient(constants.NullKeyspaceID)
+}
+func (p ksPD) GetGCInternalController(keyspaceID uint32) pdgc.InternalController {
+	return p.Client.GetGCInternalController(constants.NullKeyspaceID)
+}
+func (p ksPD) WithCallerComponent(c caller.Component) pd.Client {
+	return ksPD{p.Client.WithCallerComponent(c), p.meta}
+}
+func (p ksPD) LoadKeyspace(ctx context.Context, name string) (*keyspacepb.KeyspaceMeta, error) {
+	return p.meta, nil
+}
+
+// phys: the key as it is stored (keyspace prefix for an API v2 history); every direct access to the
+// MVCC store / the cluster goes through it
+func (e *env) phys(k []byte) []byte {
+	if len(e.prefix) == 0 {
+		return k
+	}
+	return append(append([]byte{}, e.prefix...), k...)
+}
+func (e *env) physAll(ks [][]byte) [][]byte {
+	r := make([][]byte, len(ks))
+	for i, k := range ks {
+		r[i] = e.phys(k)
+	}
+	return r
+}
+
+// logical: a physical region bound as the client sees it inside its keyspace ("" = unbounded)
+func (e *env) logical(b []byte, isEnd bool) []byte {
+	if len(e.prefix) == 0 {
+		return b
+	}
+	if bytes.HasPrefix(b, e.prefix) {
+		return b[len(e.prefix):]
+	}
+	return nil // below the keyspace (start) or above it / unbounded (end)
+}
+
 func newEnv(h *history) *env {
 	e := &env{h: h}
 	e.mvcc = mocktikv.MustNewMVCCStore()
 	e.cluster = mocktikv.NewCluster(e.mvcc)
-	mocktikv.BootstrapWithMultiRegions(e.cluster, h.layout...)
 	rpc := mocktikv.NewRPCClient(e.cluster, e.mvcc, nil)
 	pdCli := mocktikv.NewPDClient(e.cluster)
 	e.hj = &hijack{env: e, fakeSt: map[uint64]*kvrpcpb.CheckTxnStatusResponse{}, checks: map[uint64]int{}}
-	store, err := tikv.NewTestTiKVStore(rpc, pdCli, func(c tikv.Client) tikv.Client { e.hj.Client = c; return e.hj }, nil, 0)
+	hook := func(c tikv.Client) tikv.Client { e.hj.Client = c; return e.hj }
+	var store *tikv.KVStore
+	var err error
+	if h.keyspace {
+		meta := keyspacepb.KeyspaceMeta{Keyspace: &keyspacepb.KeyspaceMeta_Id{Id: 7}, Name: "ks", State: keyspacepb.KeyspaceState_ENABLED}
+		cd, err2 := apicodec.NewCodecV2(apicodec.ModeTxn, &meta)
+		must(err2)
+		e.prefix = append([]byte{}, cd.GetKeyspace()...)
+		mocktikv.BootstrapWithMultiRegions(e.cluster, e.physAll(h.layout)...)
+		store, err = tikv.NewTestKeyspaceTiKVStore(rpc, ksPD{pdCli, &meta}, hook, nil, 0, meta)
+	} else {
+		mocktikv.BootstrapWithMultiRegions(e.cluster, h.layout...)
+		store, err = tikv.NewTestTiKVStore(rpc, pdCli, hook, nil, 0)
+	}
 	must(err)
 	e.store = store
 	return e
@@ -593,11 +660,11 @@ func newEnv(h *history) *env {
 func (e *env) build() {
 	ctx := &kvrpcpb.Context{}
 	for _, t := range e.h.txns {
-		prim := t.keys[0]
+		prim := e.phys(t.keys[0])
 		if t.kind == kPessimistic {
 			muts := []*kvrpcpb.Mutation{}
 			for _, k := range t.keys {
-				muts = append(muts, &kvrpcpb.Mutation{Op: kvrpcpb.Op_PessimisticLock, Key: k})
+				muts = append(muts, &kvrpcpb.Mutation{Op: kvrpcpb.Op_PessimisticLock, Key: e.phys(k)})
 			}
 			resp := e.mvcc.PessimisticLock(&kvrpcpb.PessimisticLockRequest{Context: ctx, Mutations: muts, PrimaryLock: prim,
 				StartVersion: t.start, ForUpdateTs: t.start, LockTtl: t.ttl, WaitTimeout: -1})
@@ -608,12 +675,12 @@ func (e *env) build() {
 		}
 		muts := []*kvrpcpb.Mutation{}
 		for j, k := range t.keys {
-			m := &kvrpcpb.Mutation{Op: kvrpcpb.Op_Put, Key: k, Value: t.vals[j]}
+			m := &kvrpcpb.Mutation{Op: kvrpcpb.Op_Put, Key: e.phys(k), Value: t.vals[j]}
 			if t.del[j] {
-				m = &kvrpcpb.Mutation{Op: kvrpcpb.Op_Del, Key: k}
+				m = &kvrpcpb.Mutation{Op: kvrpcpb.Op_Del, Key: e.phys(k)}
 			}
 			if t.kind == kLockOnly {
-				m = &kvrpcpb.Mutation{Op: kvrpcpb.Op_Lock, Key: k}
+				m = &kvrpcpb.Mutation{Op: kvrpcpb.Op_Lock, Key: e.phys(k)}
 			}
 			muts = append(muts, m)
 		}
@@ -626,13 +693,13 @@ func (e *env) build() {
 		}
 		switch t.kind {
 		case kCommitted:
-			must(e.mvcc.Commit(t.keys, t.start, t.commit))
+			must(e.mvcc.Commit(e.physAll(t.keys), t.start, t.commit))
 		case kRolledBack:
-			must(e.mvcc.Rollback(t.keys, t.start))
+			must(e.mvcc.Rollback(e.physAll(t.keys), t.start))
 		case kCommitPrim:
-			must(e.mvcc.Commit(t.keys[:1], t.start, t.commit))
+			must(e.mvcc.Commit(e.physAll(t.keys[:1]), t.start, t.commit))
 		case kRollbackPrim:
-			must(e.mvcc.Rollback(t.keys[:1], t.start))
+			must(e.mvcc.Rollback(e.physAll(t.keys[:1]), t.start))
 		}
 	}
 }
@@ -652,7 +719,7 @@ func (e *env) truthLines() []string {
 	}
 	var lines []string
 	for _, k := range e.h.keys {
-		info := dbg.MvccGetByKey(k)
+		info := dbg.MvccGetByKey(e.phys(k))
 		var ws []string
 		for _, w := range info.Writes {
 			switch w.Type {
@@ -932,7 +999,7 @@ func (e *env) reads(tier string) []string {
 		var dump []string
 		dbg := e.mvcc.(mocktikv.MVCCDebugger)
 		for _, k := range h.keys {
-			if l := dbg.MvccGetByKey(k).Lock; l != nil {
+			if l := dbg.MvccGetByKey(e.phys(k)).Lock; l != nil {
 				dump = append(dump, fmt.Sprintf("%s:%s:%s:%s", hx(k), u64s(l.StartTs), l.Type.String(), hx(l.ShortValue)))
 			}
 		}
@@ -1185,7 +1252,7 @@ func (e *env) reads(tier string) []string {
 				}
 			}
 		}
-		if err := e.mvcc.Commit(pt.keys[:1], pt.start, commitTS); err != nil {
+		if err := e.mvcc.Commit(e.physAll(pt.keys[:1]), pt.start, commitTS); err != nil {
 			break // e.g. the lock was resolved otherwise: no forward-move case in this history
 		}
 		// whoever reads first after the move meets the leftover secondary lock (and resolves it)
@@ -1213,14 +1280,15 @@ func (e *env) reads(tier string) []string {
 // directed regression (the former F08/F08b witness): keys a..h, regions split at "c" and "f",
 // IterReverse from the end of the key space with and without a lower bound
 const regressionHID = 99999
-const regressionHID1 = 99998 // the same data in a single region
+const regressionHID1 = 99998  // the same data in a single region
+const regressionHIDks = 99997 // three regions under an API v2 keyspace store
 
 func regressionHistory(hid int) *history {
 	h := &history{hid: hid, rnd: rand.New(rand.NewSource(1))}
 	for c := byte('a'); c <= 'h'; c++ {
 		h.keys = append(h.keys, []byte{c})
 	}
-	if hid == regressionHID {
+	if hid != regressionHID1 {
 		h.layout = [][]byte{[]byte("c"), []byte("f")}
 	}
 	for i := 0; i < 4; i++ {
@@ -1258,9 +1326,10 @@ func runHistory(seed int64, hid int, tier string) {
 		return
 	}
 	h := genHistory(seed, hid, tier)
-	if hid == regressionHID || hid == regressionHID1 {
+	if hid == regressionHID || hid == regressionHID1 || hid == regressionHIDks {
 		h = regressionHistory(hid)
 	}
+	h.keyspace = hid%10 == 7 || hid == regressionHIDks
 	// a third of the histories use the asynchronous batch-get API, a quarter ask for commit timestamps
 	asyncBG := hid%3 == 0
 	withCommitTS = hid%4 == 1
@@ -1270,7 +1339,7 @@ func runHistory(seed int64, hid int, tier string) {
 	defer e.store.Close()
 	e.build()
 	var lines []string
-	if hid == regressionHID || hid == regressionHID1 {
+	if hid == regressionHID || hid == regressionHID1 || hid == regressionHIDks {
 		lines = e.regressionReads()
 	} else {
 		lines = e.reads(tier)
@@ -1290,7 +1359,7 @@ func runHistory(seed int64, hid int, tier string) {
 		fmt.Fprintf(out, "LATER\t%d\t%s\t=>\tprobed\n", hid, l)
 	}
 	fmt.Fprintf(out, "LATER\t%d\tnone\tnone\t=>\tchecked\n", hid)
-	fmt.Fprintf(out, "MODE\t%d\tasync=%v\tcommitts=%v\tasyncRPCs=%d\n", hid, asyncBG, withCommitTS, e.hj.asyncSent)
+	fmt.Fprintf(out, "MODE\t%d\tasync=%v\tcommitts=%v keyspace=%v\tasyncRPCs=%d\n", hid, asyncBG, withCommitTS, h.keyspace, e.hj.asyncSent)
 	e.hj.mu.Unlock()
 }
 
@@ -1421,6 +1490,7 @@ func main() {
 	runClassify(seed, 300)
 	runHistory(seed, regressionHID, tier)
 	runHistory(seed, regressionHID1, tier)
+	runHistory(seed, regressionHIDks, tier)
 	for hid := 1; hid <= n; hid++ {
 		runHistory(seed, hid, tier)
 	}
